@@ -144,6 +144,11 @@ def run_verus_unit(unit, workdir, tier, seed, want_canaries=True):
     seeds = [None] if tier == "quick" else [None, (seed * 7 + 1) % 100000, (seed * 13 + 5) % 100000]
     for sd in seeds:
         r = verus.run_verus(path, rlimit=rl, seed=sd)
+        if tier == "quick" and r.json is not None and any(verus.is_rlimit(d) for d in r.diags):
+            # the solver ran out of its budget (typical when an obligation has become false): one retry with 8x the budget
+            ur.cmds.append(r.cmd.replace(workdir, "$WORK") + "   # resource limit hit; retried below")
+            ur.smt_ms += r.smt_ms or 0
+            r = verus.run_verus(path, rlimit=rl * 8, seed=sd, timeout=1500)
         runs.append(r)
         ur.cmds.append(r.cmd.replace(workdir, "$WORK"))
         ur.smt_ms += r.smt_ms or 0
